@@ -25,6 +25,7 @@ import PynetVerif.Driver.Timeouts
 import PynetVerif.Driver.Deliver
 import PynetVerif.Driver.Pair
 import PynetVerif.Driver.Pause
+import PynetVerif.Driver.Life
 open PynetVerif
 
 /-- Each model contributes `String → List SExp → Option SExp` (none = not my op). -/
@@ -54,7 +55,8 @@ def handlers : List (String → List SExp → Option SExp) :=
    Driver.timeoutsOps,
    Driver.deliverOps,
    Driver.pairOps,
-   Driver.pauseOps]
+   Driver.pauseOps,
+   Driver.lifeOps]
 
 def handle (e : SExp) : SExp :=
   match e with
